@@ -98,3 +98,8 @@ CHECKS["C17"] = {
   "note": "Values exactly representable in the declared C type; CPU contexts; a wild pointer that kills the interpreter is reported through the runner's crash triage with the replayable case.",
   "technique": "property-based testing with generated kernels: echo-kernel differential against byte-level expectations",
 }
+CHECKS["C16"] = {
+  "text": "Exploration: kernel sources generated from the annotation vocabulary (1-3 kernels x 1-3 vectorize_over/end_vectorize blocks in both surface forms, gpukern / gpufun / gpuglmem / restrict placeholders, only_for_context lines inside and outside blocks, include_file ... for_context with generated files, unique unannotated filler lines) x n in {0,1,2,3,block-1,block,block+1,2*block+3} x CUDA block in {1,2,32,256}. Instrumented index-local bodies (per-index execution counters, canaries behind n, results that depend on which restricted lines / included files are active). Executed through ctx.add_kernels on ContextCpu() and ContextCpu(omp_num_threads=2) (each kernel twice), and as host-compiled OpenCL / CUDA expansions driven by the launch geometry recorded from the real KernelPyopencl.__call__ / KernelCupy.__call__ with the device function replaced by a recorder. Oracle: every index of every block exactly once per call on every target, canaries untouched, y equal to the per-target reference incl. n = 0; restricted lines active exactly where named, files spliced exactly where named, filler lines unchanged, once, in order; no placeholder left. 16 workers x 40 / 600 sources.",
+  "note": "GPU expansions run on the host (no device): a defect that only a real OpenCL/CUDA compiler or scheduler would expose is out of reach; OpenMP with 2 threads, no control over the schedule.",
+  "technique": "property-based testing of a source-to-source transformation: generated annotated programs, executed on CPU contexts and under a simulated GPU launch, against a reference semantics",
+}
